@@ -183,7 +183,7 @@ fn run_case(c: &Case, tier: Tier) -> Chk<Pass> {
         Ty::I64 => run_c10::<i64>(c, tier), Ty::I128 => run_c10::<i128>(c, tier), Ty::Big => run_c10::<B>(c, tier),
         Ty::GI64 => run_c10::<GaussInt<i64>>(c, tier), Ty::GBig => run_c10::<GaussInt<B>>(c, tier),
         Ty::EI64 => run_c10::<EisenInt<i64>>(c, tier), Ty::EBig => run_c10::<EisenInt<B>>(c, tier),
-        other => bad(format!("type {:?} not handled by C10", other)),
+        _ => discard("out-of-domain"),
     }
 }
 
@@ -214,5 +214,6 @@ impl Prop for C10 {
     }
     fn cases(tier: Tier) -> u32 { tier.pick(150_000, 3_000_000) }
     fn shards(_: Tier) -> usize { 16 }
+    fn fuzz_in_domain(c: &Case) -> bool { let (bits, deg) = c.spec.size(); bits <= 700 && deg <= 4 }
     fn run(case: &Case, ctx: &Ctx) -> Outcome { to_outcome(run_case(case, ctx.tier)) }
 }
